@@ -494,7 +494,7 @@ TRANSPARENT = re.compile(
 class Exprs:
     """Backward slicer producing expression trees for operands of one function."""
 
-    def __init__(self, fn, max_depth=10):
+    def __init__(self, fn, max_depth=24):
         self.fn = fn
         self.defs = defs_of(fn)
         self.max_depth = max_depth
@@ -648,7 +648,7 @@ def as_cmp(e):
     return None
 
 
-def switch_conditions(fn, max_depth=10):
+def switch_conditions(fn, max_depth=24):
     """For every live switch block: (block, expr tree of the discriminant, arms, else)."""
     ex = Exprs(fn, max_depth)
     out = []
